@@ -229,6 +229,9 @@ func runC01(c *core.Ctx) {
 		sample(c, func() interface{} { return map[string]interface{}{"query": text, "distance": dist} })
 		return true
 	})
+	// Go type names that contain one another, bound by name and by the three spellings of @go: __typename and fragments on the
+	// concrete types for every order of members and values (the probes of C08, their verdicts are this property's as well)
+	c08NameProbes(c)
 	c.R.Bound = fmt.Sprintf("documents within %d mutations of %d bases", k, len(world.BaseDocs()))
 	if !completed {
 		c.Cap("deadline reached before the mutation neighbourhood was completed")
